@@ -118,6 +118,7 @@ class Gen:
         self.targets = []
         self.used_ids = []
         self.rec_labels = []  # (label, kind, target)
+        self.pending_attach = []
 
     # ---- values ------------------------------------------------------------------------------
     def rand_str(self):
@@ -244,10 +245,23 @@ class Gen:
     def op_bundle(self):
         i = len(self.targets) - 1
         t = "B%d" % i
-        op = ["bundle", t, self.rand_name("D", locals_=["b%d" % i, "bundle/%d" % i, "b"])]
         self.scopes[t] = {"declared": {}, "default": None}
+        if self.r.random() < self.p.get("p_standalone_bundle", 0.25):
+            # a stand-alone ProvBundle, filled while detached and attached later with add_bundle()
+            how = self.r.choice(["ctor_id", "ctor_id", "attach_id"])
+            ident = self.rand_name(t, forms=("qn",), locals_=["b%d" % i, "sb%d" % i, "b"])
+            op = ["sbundle", t, ident if how == "ctor_id" else None]
+            self.pending_attach.append((t, None if how == "ctor_id" else self.rand_name("D", locals_=["b%d" % i, "b"])))
+        else:
+            op = ["bundle", t, self.rand_name("D", locals_=["b%d" % i, "bundle/%d" % i, "b"])]
         self.targets.append(t)
         return op
+
+    def op_attach(self, force=False):
+        if not self.pending_attach or not (force or self.r.random() < 0.25):
+            return None
+        t, ident = self.pending_attach.pop(0)
+        return ["attach", t, ident]
 
     def rand_extras(self, t, n=None, kind=None):
         r = self.r
@@ -368,6 +382,9 @@ class Gen:
     def step(self):
         """One more operation (may return None when the drawn operation is not applicable)."""
         r = self.r
+        a = self.op_attach()
+        if a:
+            return [a]
         x = r.random()
         nb = len(self.targets) - 1
         if nb < self.p["max_bundles"] and x < 0.10:
@@ -404,6 +421,8 @@ class Gen:
         n = steps if steps is not None else r.randint(1, self.p["max_steps"])
         for _ in range(n):
             ops.extend(self.step())
+        while self.pending_attach:
+            ops.append(self.op_attach(force=True))
         return ops
 
 
